@@ -3,6 +3,7 @@ package drivers
 import (
 	"encoding/json"
 	"fmt"
+	"io"
 	"net"
 	"reflect"
 	"runtime"
@@ -105,7 +106,7 @@ func runSerialCollect(sc int, c *serialCase, emit func(serialEv)) {
 		if c.Flavour == "panicreg" && cc == 1 && i == 1 {
 			panic("scripted handler panic") // conn.serve recovers and drops connection 1 only
 		}
-		if c.Flavour == "cn" && i == 1 {
+		if (c.Flavour == "cn" || c.Flavour == "cneof") && i == 1 {
 			// the application watches this connection for disconnects from its first message on: the reader
 			// switches to the notifier's pipe; order and one-at-a-time are unaffected
 			if cn, ok := dc.(diam.CloseNotifier); ok {
@@ -245,6 +246,22 @@ func runSerialCollect(sc int, c *serialCase, emit func(serialEv)) {
 				}
 			}
 		}
+	case c.Flavour == "cneof":
+		conns[1].Feed(msg(1, 1))
+		deadline := time.Now().Add(time.Second)
+		for time.Now().Before(deadline) {
+			mu.Lock()
+			ok := done[1] >= 1
+			mu.Unlock()
+			if ok {
+				break
+			}
+			time.Sleep(200 * time.Microsecond)
+		}
+		if mc, isMem := conns[1].(*memnet.Conn); isMem {
+			mc.WaitReaderBlocked(500 * time.Millisecond)
+		}
+		conns[1].Feed(append(msg(1, 2), msg(1, 3)...))
 	case c.Flavour == "panicreg":
 		// connection 1's first handler panics; afterwards the application registers a further handler (which must
 		// not wait for anything) and the other connections are served as usual
@@ -319,6 +336,11 @@ func runSerialCollect(sc int, c *serialCase, emit func(serialEv)) {
 	if c.HoldC > 0 {
 		select {
 		case <-entered:
+			if c.Flavour == "cneof" {
+				if mc, isMem := conns[c.HoldC].(*memnet.Conn); isMem {
+					mc.FeedErr(io.EOF) // the peer leaves while the second handler is still running
+				}
+			}
 			if regPending {
 				go mux.HandleFunc("ULR", func(diam.Conn, *diam.Message) {}) // waits for the held handler
 				time.Sleep(5 * time.Millisecond)
